@@ -184,6 +184,10 @@ def violations(d, xs, tol=1e-5):
             arg = np.maximum(arg, 1e-12)          # solver tolerance at the boundary of the domain
         with np.errstate(all='ignore'):
             val = at['scale'] * np.asarray(npf(arg), dtype=float) + np.array(at['off']) @ xs
+            if dom == 'pos' and sign == -1 and np.min(arg) < 1e-3:
+                # next to the boundary of the domain (log, entropy: unbounded slope at 0) the returned point is judged in the
+                # argument: the constraint must hold once the argument is moved by the solver's feasibility tolerance
+                val = np.maximum(val, at['scale'] * np.asarray(npf(arg + 2e-6), dtype=float) + np.array(at['off']) @ xs)
         s = 1 + abs(at['rhs'])
         if sign == 1 and np.max(val) > at['rhs'] + tol * s * 10:
             out.append(('atom %s <=' % at['name'], float(np.max(val) - at['rhs'])))
